@@ -142,6 +142,10 @@ def build_tree(rec, r, wd, depth, maxdepth, uniq="r"):
         name = f"#dep_{uniq}{i}"
         node.deps[name] = ch
         embed[name] = ch.bytes.hex()
+    if r.random() < 0.2:
+        # a payload whose first CBOR item is a tag around a map, followed by more data: NOT an envelope
+        e.setdefault("suit-integrated-payloads", {})["#tagged_" + uniq] = \
+            (r.choice(["cfa0", "d86ba0", "c1a10102"]) + r.randbytes(r.choice([1, 30])).hex())
     if embed:
         e["suit-integrated-dependencies"] = embed
         if r.random() < 0.3 and "suit-integrated-payloads" in e:
@@ -213,9 +217,13 @@ def make_config(rec, r, node, inherited_alg, top, failure, state):
     if failure == "not-an-envelope" and not state["failed"] and payloads and r.random() < 0.6:
         p = r.choice(payloads)
         raw = env.str_members[p].val
-        if not raw or (raw[0] >> 5) != 6:
-            deps_cfg[p] = {"key-name": ks.pick(r, alg).name, "key-id": "0x1"}
+        # any payload that is not a complete tag-107 item is "not an envelope" (also other tags / trailing bytes)
+        nd = mcbor.try_decode(raw)
+        if not (nd is not None and nd.mt == 6 and nd.val == 107):
+            deps_cfg[p] = {"omit-signing": True} if r.random() < 0.4 else \
+                {"key-name": ks.pick(r, alg).name, "key-id": "0x1"}
             state["failed"] = "not-an-envelope"
+            state["tagged"] = bool(raw) and (raw[0] >> 5) == 6
     if deps_cfg or r.random() < 0.1:
         items = list(deps_cfg.items())
         r.shuffle(items)
@@ -334,6 +342,8 @@ def case_recursive(rec, case):
     rec.count("recursive:route:" + route)
     rec.count(f"recursive:depth:{depth_of(root)}")
     rec.count("recursive:failure:" + str(state["failed"]))
+    if state.get("tagged"):
+        rec.count("recursive:failure:not-an-envelope(tagged item with trailing data)")
     for mm in modes(exp, []):
         rec.count("recursive:node:" + mm)
     if use_env:
